@@ -6,13 +6,15 @@ import (
 	"net"
 	"strconv"
 	"sync"
+	"sync/atomic"
 	"time"
 )
 
 // client is one raw AMQP connection of the harness.
 type client struct {
-	poisoned     bool // hostile bytes were written: frame accounting is off
-	id           int  // = the broker's connection id (connections are opened one at a time on a fresh broker)
+	poisoned     bool  // hostile bytes were written: frame accounting is off
+	deaf         int32 // DEAF: the reader goroutine pauses (the socket's receive buffer fills up)
+	id           int   // = the broker's connection id (connections are opened one at a time on a fresh broker)
 	nc           net.Conn
 	mu           sync.Mutex
 	frames       []frame // received, not yet collected
@@ -39,6 +41,9 @@ func (c *client) startReader() {
 	go func() {
 		r := bufio.NewReaderSize(c.nc, 1<<16)
 		for {
+			for atomic.LoadInt32(&c.deaf) != 0 { // DEAF: the client stops reading its socket
+				time.Sleep(5 * time.Millisecond)
+			}
 			f, err := readFrame(r)
 			c.mu.Lock()
 			if err != nil {
